@@ -2232,6 +2232,10 @@ class Engine:
             raise Unsupported('loop invariant given for a loop over a concrete sequence')
         if hasattr(it, 'vc_indexable'):
             return it.vc_indexable(self)
+        if isinstance(it, Obj):
+            m = self.find_method(it, '__iter__')
+            if m is not None:
+                return self.as_indexable(self.call_function(m, [], {}))
         raise Unsupported('inductive loop over %s' % pytype(it))
 
     MUTATORS = {'append', 'extend', 'insert', 'pop', 'remove', 'clear', 'update', 'add', 'discard', 'setdefault',
